@@ -100,6 +100,7 @@ type verifGC struct {
 	incs      int
 	delivered map[string]int // block -> incarnation last delivered
 	coalesce  bool           // deliver a re-created block as a plain update (re-list semantics)
+	nostate   bool           // do not record the projection of the controller's maps
 
 	failKind string // "ips" | "block" | "host" | "": which IPAM call fails during the running sync
 }
@@ -348,6 +349,9 @@ func sortedRows(rows []map[string]any) []any {
 }
 
 func (d *verifGC) state() {
+	if d.nostate {
+		return
+	}
 	c := d.c
 	blocks := []string{}
 	for b := range c.allBlocks {
@@ -648,6 +652,11 @@ func (d *verifGC) step(op map[string]any) {
 		}
 	case "sync":
 		d.sync(boolean(op["full"]), str(op["fail"]))
+	case "options":
+		// witness behaviours only: re-list delivery semantics / no projection of the controller's maps
+		d.coalesce = boolean(op["coalesce"])
+		d.nostate = boolean(op["nostate"])
+		d.emit("options", map[string]any{"coalesce": d.coalesce, "nostate": d.nostate})
 	case "end":
 	default:
 		panic("unknown op " + fmt.Sprint(op["op"]))
@@ -709,7 +718,7 @@ func (d *verifGC) runTrace(t int, ops []map[string]any, rnd *rand.Rand) (out []b
 		}
 	}()
 	d.buf.Reset()
-	d.coalesce = os.Getenv("VERIF_GC_COALESCE") == "1"
+	d.coalesce, d.nostate = false, false
 	d.start(t)
 	if rnd != nil {
 		d.random(rnd)
@@ -796,9 +805,9 @@ func (d *verifGC) random(rnd *rand.Rand) {
 			kind, owner, handle := "pod", pick(pods), ""
 			switch k := rnd.Intn(20); {
 			case k == 0:
-				kind, owner, handle = "tunnel", "", "vxlan-tunnel-addr-"+n
+				kind, owner, handle = "tunnel", "", "vxlan-tunnel-addr"
 			case k == 1:
-				kind, owner, handle = "other", "", "misc-"+n
+				kind, owner, handle = "other", "", "misc"
 			case k < 5 && useVM:
 				kind, owner = "vm", pick(vmsU)
 				handle = "k8s-pod-network.vm-" + owner
@@ -808,6 +817,7 @@ func (d *verifGC) random(rnd *rand.Rand) {
 					handle += "-" + strconv.Itoa(rnd.Intn(2))
 				}
 			}
+			handle += "@" + n // assumption E4: a handle belongs to one node
 			d.step(map[string]any{"op": "assign", "b": b, "ip": ipOf(b, rnd.Intn(4)), "handle": handle, "kind": kind, "owner": owner, "node": n})
 		case c < 61:
 			b := pick(blocks)
